@@ -79,6 +79,19 @@ def hid_scenarios(tier, seed):
             sc["glob"] = 1                         # device node given as a pattern ...
             sc["rename_on_return"] = k % 2         # ... and the device may come back under another matching name
         scs.append(sc)
+    # the driver has given up ('failed'), the application calls connect() again while the device is still missing, the device
+    # comes back during that second round: attempts at the configured interval again, the handshake, sends work
+    for drv in ("tridonic", "hasseb"):
+        for limit in (1, 2, 3):
+            for back in (0.4, 1.3):
+                if back < limit:
+                    call_at = limit + 3.0
+                    scs.append({"driver": drv, "exceptions": True, "reconnect_limit": limit, "reconnect_interval": 1,
+                                "callers": [{"name": "A", "mode": "send", "unit": [["q16", 3]], "exceptions": True}],
+                                "triggers": [], "time_triggers": [[0.3, "lose"], [call_at, "connect"], [call_at + back, "return"]],
+                                "loss_mode": "eof", "first_seq": 9, "release_plan": [1] * 12, "tail_sends": 20,
+                                "horizon": 60, "settle": 8, "post_idle": call_at + limit + 4, "connect_again_at": call_at,
+                                "tag": "connect-after-failed", "sequence_exceptions": True})
     # a device-type command sent with exceptions off, the gateway lost at every point of its two frames and back after
     # half a second: the transparent retry must put the whole unit (prefix + command) on the wire again
     for drv in ("tridonic", "hasseb"):
@@ -180,6 +193,8 @@ def run(tier, seed, replay=None):
                                   and not r.get("returned_in_time", True)) else 0
             if expect_failed and r["now"] - r["lost_at"] < (limit + 1) * sc.get("reconnect_interval", 1) + 0.5:
                 expect_failed = -1      # the run ended before the attempts could run out: neither required nor forbidden
+            if sc.get("connect_again_at") is not None:
+                expect_failed = -1      # 'failed' is reported on the way, 'connected' at the end: judged by what follows
             s = {k: v for k, v in r.items() if k not in ("scenario", "writes", "traffic", "events")}
             tl = r["out"].get("tail", {})
             s["status"] = [[us(t), st] for t, st in r["status"][:tl.get("status_len", len(r["status"]))]]
@@ -190,6 +205,7 @@ def run(tier, seed, replay=None):
                 c["t0"], c["t1"] = us(max(0, c["t0"])), us(max(0, c["t1"]))
             s["params"] = {"limit": -1 if limit is None else limit, "interval": us(sc.get("reconnect_interval", 1)),
                            "expect_failed": expect_failed, "lost_at": us(lost) if lost >= 0 else 0,
+                           "call_at": us(sc["connect_again_at"]) if sc.get("connect_again_at") is not None else -1,
                            "timeout_confirm": us(1.0 if sc["driver"] == "luba" else 0.1),
                            "timeout_answer": us(0.025 if sc["driver"] == "luba" else 0.03)}
             s["now"] = us(r["now"])
